@@ -6,7 +6,7 @@ package difflib
 // Lines are uninterpreted values with equality (mode arr): "lines differing only in whitespace or invalid
 // UTF-8" are simply different lines.
 
-//@ mode arr
+//@ mode arr,lines
 //@ specfun blockOK(a Slice<Str>, b Slice<Str>, m S_difflib_match) Bool =
 //@      0 <= m.A && 0 <= m.B && 0 <= m.Size && m.A + m.Size <= len(a) && m.B + m.Size <= len(b)
 //@   && (forall u in m.A..m.A + m.Size: a[u] == b[u - m.A + m.B])
@@ -30,7 +30,10 @@ package difflib
 //@   && (forall k in 0..len(ops) - 1: ops[k].I2 == ops[k + 1].I1 && ops[k].J2 == ops[k + 1].J1)
 //@   && (len(ops) == 0 ==> len(a) == 0 && len(b) == 0)
 //@   && (len(ops) > 0 ==> ops[0].I1 == 0 && ops[0].J1 == 0 && ops[len(ops) - 1].I2 == len(a) && ops[len(ops) - 1].J2 == len(b))
-//@ specfun allEqualOps(ops Slice<S_difflib_OpCode>, n Int) Bool = forall k in 0..n: ops[k].Tag == 0
+//@ specfun sameRange(a Slice<Str>, b Slice<Str>, c S_difflib_OpCode) Bool = c.I2 - c.I1 == c.J2 - c.J1 && (forall u in c.I1..c.I2: a[u] == b[u - c.I1 + c.J1])
+//@ specfun sameR(a Slice<Str>, b Slice<Str>, c S_difflib_OpCode) Bool
+//@ axiom sameR_def: forall a Slice<Str>, b Slice<Str>, c S_difflib_OpCode {sameR(a, b, c)}: sameR(a, b, c) == sameRange(a, b, c)
+//@ specfun allSame(a Slice<Str>, b Slice<Str>, ops Slice<S_difflib_OpCode>, n Int) Bool = forall k in 0..n: sameR(a, b, ops[k])
 //@ specfun sameSeq(a Slice<Str>, b Slice<Str>) Bool = len(a) == len(b) && (forall t in 0..len(a): a[t] == b[t])
 //@ specfun opWeak(a Slice<Str>, b Slice<Str>, c S_difflib_OpCode) Bool =
 //@      0 <= c.Tag && c.Tag <= 3 && 0 <= c.I1 && c.I1 <= c.I2 && c.I2 <= len(a) && 0 <= c.J1 && c.J1 <= c.J2 && c.J2 <= len(b)
@@ -40,7 +43,7 @@ package difflib
 //@   && (c.Tag == 3 ==> c.I1 < c.I2 && c.J1 < c.J2)
 //@ specfun groupsOK(a Slice<Str>, b Slice<Str>, gs Slice<Slice<S_difflib_OpCode>>) Bool =
 //@      (forall g in 0..len(gs): len(gs[g]) >= 1 && (forall c in 0..len(gs[g]): opWeak(a, b, gs[g][c])))
-//@ specfun hasChange(gs Slice<Slice<S_difflib_OpCode>>) Bool = exists g in 0..len(gs): exists c in 0..len(gs[g]): gs[g][c].Tag != 0
+//@ specfun hasChange(a Slice<Str>, b Slice<Str>, gs Slice<Slice<S_difflib_OpCode>>) Bool = exists g in 0..len(gs): exists c in 0..len(gs[g]): !sameR(a, b, gs[g][c])
 //@ mode all
 
 //@ func min(a, b) returns (r)
@@ -121,7 +124,7 @@ package difflib
 //@   requires m.b2j != nil && b2jOK(m.b, dom(m.b2j), vals(m.b2j))
 //@   assigns m.matchingBlocks, m.opCodes, alloc
 //@   ensures [tiling] opsTile(m.a, m.b, r)
-//@   ensures [all_equal] allEqualOps(r, len(r)) ==> sameSeq(m.a, m.b)
+//@   ensures [all_same] allSame(m.a, m.b, r, len(r)) ==> sameSeq(m.a, m.b)
 //@   ensures [cached] m.opCodes == r
 //@   let A = old(m.a)
 //@   let B = old(m.b)
@@ -133,7 +136,7 @@ package difflib
 //@   loop 1 invariant len(opCodes) > 0 ==> opCodes[0].I1 == 0 && opCodes[0].J1 == 0 && opCodes[len(opCodes) - 1].I2 == i && opCodes[len(opCodes) - 1].J2 == j
 //@   loop 1 invariant forall k in 0..len(opCodes) - 1: opCodes[k].I2 == opCodes[k + 1].I1 && opCodes[k].J2 == opCodes[k + 1].J1
 //@   loop 1 invariant forall k in 0..len(opCodes): opShape(A, B, opCodes[k])
-//@   loop 1 invariant allEqualOps(opCodes, len(opCodes)) ==> i == j && (forall t in 0..i: A[t] == B[t])
+//@   loop 1 invariant allSame(A, B, opCodes, len(opCodes)) ==> i == j && (forall t in 0..i: A[t] == B[t])
 
 //@ func (*sequenceMatcher).GetGroupedOpCodes(m, n) returns (r)
 //@   mode arr
@@ -144,7 +147,7 @@ package difflib
 //@   let A = old(m.a)
 //@   let B = old(m.b)
 //@   ensures [groups] groupsOK(A, B, r)
-//@   ensures [no_omission] !sameSeq(A, B) ==> hasChange(r)
+//@   ensures [no_omission] !sameSeq(A, B) ==> hasChange(A, B, r)
 //@   ensures [seqs_kept] m.a == A && m.b == B
 //@   loop 1 invariant 0 <= $idx && $idx <= len(codes) && n >= 1 && nn == n + n
 //@   loop 1 invariant heap(sequenceMatcher.a) == old(heap(sequenceMatcher.a)) && heap(sequenceMatcher.b) == old(heap(sequenceMatcher.b))
@@ -152,9 +155,9 @@ package difflib
 //@   loop 1 invariant (len(A) > 0 || len(B) > 0) ==> (forall c in 0..len(group): opWeak(A, B, group[c]))
 //@   loop 1 invariant (len(A) > 0 || len(B) > 0) ==> (forall k in 0..len(codes): opWeak(A, B, codes[k]))
 //@   loop 1 invariant (len(A) == 0 && len(B) == 0) ==> len(codes) == 1 && codes[0].Tag == 0 && codes[0].I2 - codes[0].I1 <= 1
-//@   loop 1 invariant (exists k in 0..$idx: codes[k].Tag != 0) ==> hasChange(groups) || (exists c in 0..len(group): group[c].Tag != 0)
-//@   loop 1 invariant (len(A) == 0 && len(B) == 0) ==> len(groups) == 0 && (forall c in 0..len(group): group[c].Tag == 0) && len(group) <= $idx
-//@   loop 1 invariant !sameSeq(A, B) ==> (exists k in 0..len(codes): codes[k].Tag != 0)
+//@   loop 1 invariant (exists k in 0..$idx: !sameR(A, B, codes[k])) ==> hasChange(A, B, groups) || (exists c in 0..len(group): !sameR(A, B, group[c]))
+//@   loop 1 invariant (len(A) == 0 && len(B) == 0) ==> len(groups) == 0 && (forall c in 0..len(group): group[c].Tag == 0 && group[c].I2 - group[c].I1 == group[c].J2 - group[c].J1) && len(group) <= $idx
+//@   loop 1 invariant !sameSeq(A, B) ==> (exists k in 0..len(codes): !sameR(A, B, codes[k]))
 
 //@ func (*sequenceMatcher).chainB(m)
 //@   mode arr
